@@ -107,6 +107,30 @@ def sym_rename_rows(vc):
                    'process_resource#L0', identity=False, min_paths=2)
 
 
+def _replay_rows(which):
+    def replay(h, cex, obligation):
+        """the solver's counterexample of a failed row-phase obligation of delete / select / rename: the row and the names"""
+        from contracts import replayers as R
+        rows = R.rows(cex, 'rows.row') or R.rows(cex, 'rows.rows.row')
+        sp = h.spec(SPEC)
+        if which == 'delete':
+            from dataflows.processors.delete_fields import process_resource
+            names = [x for x in (R.scalar(cex, 'names') or []) if isinstance(x, str)]
+            want = [o for r in rows for o in sp['restrict'](r, names)]        # (the row phase is handed the names that are KEPT)
+            got = h.run(lambda: list(process_resource(iter([dict(r) for r in rows]), names)))
+            inp = dict(rows=rows, kept_names=names)
+        elif which == 'rename':
+            from dataflows.processors.rename_fields import process_resource
+            ren = (R.rows(cex, 'renames') or [{}])[0]
+            want = [o for r in rows for o in sp['rename'](r, ren)]
+            got = h.run(lambda: list(process_resource(iter([dict(r) for r in rows]), ren)))
+            inp = dict(rows=rows, renames=ren)
+        else:
+            return 'not-concretisable'
+        h.check(got[0] == 'ok' and got[1] == want, P + '%s_fields.py::process_resource' % which, inp, want, got[:2])
+    return replay
+
+
 OPS = ['constant', 'sum', 'avg', 'max', 'min', 'multiply', 'join', 'format']
 
 
@@ -676,10 +700,66 @@ def nat_lockstep(h):
             P + 'add_computed_field.py::add_computed_field.func', 'same flow object run twice', r1[:1], r2[:2])
 
 
+from contracts import C10 as _K10   # noqa: E402  (ResourceMatcher: the contract every selector-taking step is checked against)
+
+def nat_lockstep_multi(h):
+    """bounded: ONE field-level step over SEVERAL resources whose field sets differ: every resource's schema and rows are edited by
+    what the step selects IN THAT RESOURCE (patterns match different fields in different resources)"""
+    import re
+    from dataflows import Flow, delete_fields, select_fields, rename_fields
+    pool = ['id', 'score_1', 'score_2', 'name', 'ab', 'abc', 'x']
+    for _ in range(h.n(40, 400)):
+        nres = h.rng.randint(2, 3)
+        colsets = [['id'] + h.rng.sample(pool[1:], h.rng.randint(1, 4)) for _ in range(nres)]
+        data = [[{c: '%s%d%d' % (c, k, i) for c in cols} for i in range(h.rng.randint(1, 3))] for k, cols in enumerate(colsets)]
+        kind = h.rng.choice(['select', 'delete', 'rename'])
+        pats = h.rng.choice([['id', r'score_\d'], ['id', 'ab.*'], ['id', 'name', 'x'], ['id', '.*']])
+        if kind == 'select':
+            step = select_fields(pats)
+            exp = [[c for pt in pats for c in cols if re.fullmatch(pt, c)] for cols in colsets]
+            exp = [list(dict.fromkeys(e)) for e in exp]
+            ren = None
+        elif kind == 'delete':
+            pats = pats[1:]
+            if not any(re.fullmatch(pt, c) for pt in pats for cols in colsets for c in cols):
+                continue
+            step = delete_fields(pats)
+            exp = [[c for c in cols if not any(re.fullmatch(pt, c) for pt in pats)] for cols in colsets]
+            ren = None
+        else:
+            ren = {'score_1': 's1', 'name': 'label'}
+            if not any(c in ren for cols in colsets for c in cols):
+                continue
+            step = rename_fields(ren, regex=False)
+            exp = [[ren.get(c, c) for c in cols] for cols in colsets]
+        got = h.run(lambda: Flow(*[[dict(r) for r in rows] for rows in data], step).results(on_error=None))
+        if got[0] != 'ok':
+            # a step may refuse a resource in which it finds nothing to do; it must not do so when every resource has a match
+            every = all(any(re.fullmatch(pt, c) for pt in pats for c in cols) for cols in colsets) if kind != 'rename' else \
+                all(any(c in ren for c in cols) for cols in colsets)
+            h.check(not every, P + kind + '_fields.py', (kind, colsets, pats), 'no exception', got[:2])
+            continue
+        res, dp, _ = got[1]
+        for k, cols in enumerate(colsets):
+            fields = [f['name'] for f in dp.descriptor['resources'][k]['schema']['fields']]
+            if kind == 'select':
+                want_rows = [{c: r[c] for c in exp[k]} for r in data[k]]
+                ok = fields == exp[k] and res[k] == want_rows
+            elif kind == 'delete':
+                want_rows = [{c: r[c] for c in exp[k]} for r in data[k]]
+                ok = fields == exp[k] and res[k] == want_rows
+            else:
+                want_rows = [{ren.get(c, c): v for c, v in r.items()} for r in data[k]]
+                ok = fields == exp[k] and res[k] == want_rows
+            h.check(ok, P + kind + '_fields.py', (kind, colsets, pats, 'resource %d' % k), (exp[k], want_rows), (fields, res[k]))
+
+
 ITEMS = [
-    Item('delete_fields.process_resource', sym_delete_rows, [('differential', nat_rows)], P + 'delete_fields.py::process_resource'),
+    _K10._mk_matcher_item(),
+    Item('delete_fields.process_resource', sym_delete_rows, [('differential', nat_rows)], P + 'delete_fields.py::process_resource',
+         replay=_replay_rows('delete')),
     Item('select_fields.process_resource', sym_select_rows, [], P + 'select_fields.py::process_resource'),
-    Item('rename_fields.process_resource', sym_rename_rows, [], P + 'rename_fields.py::process_resource'),
+    Item('rename_fields.process_resource', sym_rename_rows, [], P + 'rename_fields.py::process_resource', replay=_replay_rows('rename')),
     Item('add_computed_field.process_resource', sym_computed_rows, [('differential', nat_computed)],
          P + 'add_computed_field.py::process_resource'),
     Item('find_replace._find_replace', sym_find_replace_rows, [('differential', nat_find_replace)],
@@ -689,5 +769,5 @@ ITEMS = [
     Item('rename_fields.package-phase', sym_rename_fields_pkg, [], P + 'rename_fields.py::rename_fields.func'),
     Item('select_fields.package-phase', sym_select_fields_pkg, [], P + 'select_fields.py::select_fields.func'),
     Item('add_computed_field.package-phase', sym_computed_pkg, [], P + 'add_computed_field.py::add_computed_field.func'),
-    Item('lockstep', None, [('end-to-end', nat_lockstep)], None),
+    Item('lockstep', None, [('end-to-end', nat_lockstep), ('several-resources', nat_lockstep_multi)], None),
 ]
